@@ -340,6 +340,10 @@ func runObj(obj render3d.Object, q query) (r qres) {
 	return
 }
 
+// hierNote: appended to the description of a scan mismatch (real sets: the primitives themselves, so that the
+// failing input can be replayed against the library without the harness).
+var hierNote string
+
 // emitHier prints one hierarchy case and checks it against the harness' own scan when sound.
 func (g *G) emitHier(kind string, dim int, q query, trace, sound bool, bs []box, ans []lans, sh *shape,
 	res qres, tr []int) {
@@ -361,7 +365,11 @@ func (g *G) emitHier(kind string, dim int, q query, trace, sound bool, bs []box,
 	order := sh.leaves()
 	if sound && res.pan == "" {
 		if want := scan(q.q, order, ans).str(q.q); want != res.str(q.q) {
-			g.PropFail(fmt.Sprintf("prop:c08 %s-%s-differs-from-scan", kind, q.q), op+" => got "+res.str(q.q)+" want "+want)
+			site := fmt.Sprintf("prop:c08 %s-%s-differs-from-scan", kind, q.q)
+			if !trace { // real triangles / segments: a site of its own, so that the replay names real geometry
+				site += "-on-real-primitives"
+			}
+			g.PropFail(site, op+" => got "+res.str(q.q)+" want "+want+hierNote)
 		}
 	}
 	if trace && len(tr) < len(order) {
